@@ -154,6 +154,9 @@ func configs(thorough bool) []Config {
 		}
 		for _, d := range defaults {
 			for _, reg := range []string{"all", "sparse"} {
+				if reg == "sparse" && ((!thorough && len(set) > 1) || len(set) > 2) {
+					continue // the sparse registration only with lists of at most one (thorough: two) entries
+				}
 				for si, sh := range shapes {
 					if si > 0 && d == "text/plain" {
 						continue
@@ -259,7 +262,7 @@ func main() {
 	headers := append(validHeaders(thorough), specialHeaders()...)
 	modes := []string{"none", "cl0", "cl2", "chunked1", "chunked0", "unknownlen"}
 	if thorough {
-		modes = append(modes, "chunked2", "unknown0", "cl5000")
+		modes = append(modes, "chunked2", "cl5000")
 	}
 	cfgs := configs(thorough)
 
@@ -311,6 +314,9 @@ func main() {
 		}
 		return false
 	}
+	// sequences on shared instances first (the smaller phase), then the single-request product
+	seqPhase(r, thorough, stop)
+
 	var done atomic.Int64
 	enum.Parallel(len(cfgs), stop, func(ci int) {
 		// rotate the visiting order with the seed; the visited set is the same
@@ -357,96 +363,6 @@ func main() {
 
 	r.Set("configs_completed", done.Load())
 
-	// ---- sequence phase: 2 (thorough: also 3) requests on ONE instance, two operations ----
-	worlds := seqWorlds(thorough)
-	pairBodies := []string{"cl2", "none"}
-	if thorough {
-		pairBodies = []string{"cl2", "chunked1", "none"}
-	}
-	pairSteps := seqSteps(seqHeaders(true), pairBodies)
-	var tripleSteps []Step
-	if thorough {
-		tripleSteps = seqSteps(seqHeaders(false), []string{"cl2"})
-	}
-	r.Set("seq_descriptions", len(worlds))
-	r.Set("seq_axis_lists", seqLists(thorough))
-	r.Set("seq_axis_id_mode", []string{"none: no operationId member on either operation", "same: both operations carry operationId dup", "unique"})
-	r.Set("seq_axis_layout", map[bool][]string{false: {"POST /a + POST /b"}, true: {"POST /a + POST /b", "POST /a + PUT /a"}}[thorough])
-	r.Set("seq_axis_default", []string{"application/json", "none"})
-	r.Set("seq_pair_step_alphabet", fmt.Sprintf("%d steps = 2 operations x 2 entry points x %d headers x body modes %v; all %d ordered pairs per description", len(pairSteps), len(seqHeaders(true)), pairBodies, len(pairSteps)*len(pairSteps)))
-	if thorough {
-		r.Set("seq_triple_step_alphabet", fmt.Sprintf("%d steps = 2 operations x 2 entry points x %d headers x body cl2; all %d ordered triples per description", len(tripleSteps), len(seqHeaders(false)), len(tripleSteps)*len(tripleSteps)*len(tripleSteps)))
-	}
-	var hdrs []string
-	for _, h := range seqHeaders(true) {
-		hdrs = append(hdrs, fmt.Sprintf("%s:%q", h.Kind, h.Lines))
-	}
-	r.Set("seq_headers", hdrs)
-	var seqDone atomic.Int64
-	enum.Parallel(len(worlds), stop, func(wi int) {
-		wi = (wi + seedMod(r.Seed, len(worlds))) % len(worlds)
-		w := newWorld(worlds[wi])
-		var evals, nontrivial int64
-		outcomes := map[string]int64{}
-		carries := func(s Step) bool { return bodyModes[s.Body].carries != "no" }
-		sweep := func(steps []Step, n int) {
-			alone := make([]obs, len(steps))
-			for i, s := range steps {
-				alone[i] = w.run(w.fresh(), s)
-				evals++
-			}
-			idx := make([]int, n)
-			seq := make([]Step, n)
-			al := make([]obs, n)
-			for {
-				nb := 0
-				for k, i := range idx {
-					seq[k], al[k] = steps[i], alone[i]
-					if carries(steps[i]) {
-						nb++
-					}
-				}
-				fs, seen := w.checkSeq(seq, al)
-				evals += int64(n)
-				if nb >= 2 {
-					nontrivial++
-				}
-				last := seen[n-1]
-				outcomes[fmt.Sprintf("seq%d-last-step/%s", n, outcomeLabel(last, bodyModes[seq[n-1].Body].carries))]++
-				if len(fs) > 0 {
-					sc := SeqCase{Multi: w.m, Steps: append([]Step(nil), seq...)}
-					for _, f := range fs {
-						r.Fail(f.class, f.what, sc)
-					}
-				} else if nb >= 2 && (idx[0]*31+idx[n-1]*7+wi)%2039 == seedMod(r.Seed, 2039) && r.WantSample() {
-					r.Sample(map[string]any{"sequence": SeqCase{Multi: w.m, Steps: append([]Step(nil), seq...)}, "observed": append([]obs(nil), seen...)})
-				}
-				k := n - 1
-				for k >= 0 {
-					idx[k]++
-					if idx[k] < len(steps) {
-						break
-					}
-					idx[k] = 0
-					k--
-				}
-				if k < 0 {
-					return
-				}
-			}
-		}
-		sweep(pairSteps, 2)
-		if len(tripleSteps) > 0 {
-			sweep(tripleSteps, 3)
-		}
-		seqDone.Add(1)
-		r.Eval(evals)
-		r.Nontrivial(nontrivial)
-		for k, v := range outcomes {
-			r.Outcome(k, v)
-		}
-	})
-	r.Set("seq_descriptions_completed", seqDone.Load())
 	r.Assume(
 		"the reference model (props/c06/model.go) is the reading of the property text; what it marks MAY is never reported",
 		"consumes entries are lower case and drawn from the stated universe; API default in {application/json, none, text/plain}",
@@ -454,5 +370,5 @@ func main() {
 		"the order of route.Consumes (random in the pinned tree: the analyzer ranges over a map) is set by the harness to ascending and descending (sequence phase: ascending)",
 		"sequence phase: a fresh instance = new untyped API value, Context, router, handler chain and consumers over the same analysed description; state kept outside these objects (package level) is not reset between sequences",
 	)
-	r.Finish("every configuration (subset of the consumes universe up to the size bound x API default x registered consumers x description shape) x list order x every Content-Type header of the alphabet x every body mode x every method, each executed on both entry points of the real middleware (2 evaluations per case) and compared with the reference model; non-trivial = the request carries a body under at least one reading, i.e. the HasBody branch of the gate is entered (distinct by construction: the enumerator never repeats a (configuration, order, header, body mode, method) tuple). Sequence phase: every description with two operations (ordered pair of consumes lists x operationId mode none/same/unique x layout x API default) x every ordered pair (thorough: also every ordered triple over the smaller alphabet) of steps (operation x entry point x header x body mode) served by ONE instance; every step is one evaluation, judged by the reference model with the configuration of the operation it addresses and required to equal the result of the same step alone on a fresh instance; non-trivial sequence = at least two of its steps carry a body", !cut.Load())
+	r.Finish("every configuration (subset of the consumes universe up to the size bound x API default x registered consumers x description shape) x list order x every Content-Type header of the alphabet x every body mode x every method, each executed on both entry points of the real middleware (2 evaluations per case) and compared with the reference model; non-trivial = the request carries a body under at least one reading, i.e. the HasBody branch of the gate is entered (distinct by construction: the enumerator never repeats a (configuration, order, header, body mode, method) tuple). Sequence phase: every description with two operations (unordered pair of consumes lists x operationId mode none/same/unique x layout x API default) x (a) every ordered pair (thorough: also every ordered triple over the smaller alphabet) of steps (operation x entry point x header x body mode), each sequence served by ONE fresh instance, and (b) for every first step of the wide alphabet one instance that serves it followed by every step of the wide alphabet; every step is one evaluation, judged by the reference model with the configuration of the operation it addresses and required to equal the result of the same step alone on a fresh instance; non-trivial sequence = at least two of its steps carry a body", !cut.Load())
 }
